@@ -364,7 +364,7 @@ class ConcCtx(_BaseCtx):
         return self.values[name]
 
     def real(self, name, nan=False, inf=False, lo=None, hi=None, f32=False):
-        return float(self._get(name))
+        return sc.F(self._get(name))
 
     def integer(self, name, lo=None, hi=None):
         return int(self._get(name))
@@ -379,7 +379,7 @@ class ConcCtx(_BaseCtx):
         for i in range(n):
             v = self._get("%s[%d]" % (name, i))
             if dt.kind == 'f':
-                v = float(_np.array(v, dtype=dt))
+                v = sc.F(_np.array(v, dtype=dt))
             elif dt.kind in 'iu':
                 v = int(v)
             else:
